@@ -16,7 +16,7 @@ Model of the second-generation Dutch auction (`x/auctionsV2`), one auction at a 
 
 State = auction record (or closed), bank balances (association list, default 0), collector net fees, booked external fees,
 app reserve record, burned total.  Ghost fields (`paid recv otherC otherD booked short`) are written but never read by the
-transition functions; the theorems are stated over them and over the bank.  Core Lean only.
+transition functions; the theorems are stated over them and over the bank (`need` likewise).  Core Lean only.
 -/
 namespace Comdex.DutchV2
 open Comdex
@@ -110,6 +110,7 @@ structure St where
   otherD : Int := 0                -- debt denom in the module account that does not belong to this auction (limit deposits, other auctions)
   booked : Int := 0                -- penalty of an external auction left in the module and booked as fee data
   short : Int := 0                 -- reserve draw that was needed but silently not made (liquidate.go:611-617)
+  need : Int := 0                  -- Σ reserve draws ASKED for by closing bids (`debtGettingLeft`, bid.go:62-65), made or not
   deriving Inhabited
 
 /-! ### price conversion -/
@@ -192,10 +193,10 @@ def withdrawReserve (s : St) (need : Int) : Except Unit St :=
   | some q =>
     if q - need ≥ 0 then
       match sendPos s.bank .reserve .auction .debt need with
-      | .ok b => .ok { s with bank := b, reserve := some (q - need) }
+      | .ok b => .ok { s with bank := b, reserve := some (q - need), need := s.need + need }
       | .error _ => .error ()
     else
-      .ok { s with reserve := some (q - need), short := s.short + need }
+      .ok { s with reserve := some (q - need), short := s.short + need, need := s.need + need }
 
 def keeperCut (e : Env) : Int := Dec.truncateInt (Dec.mul e.incentive (Dec.ofInt e.fee))
 
